@@ -135,7 +135,10 @@ func newSys(c config) *sys {
 
 func (s *sys) Close() {
 	sl := s.s
-	s.sc.Abandon(func() { sleep.VerifForce(sl) }, s.parked && !s.parkReg)
+	s.sc.Abandon(func() { sleep.VerifForce(sl) }, func() bool {
+		g, _, _, _ := sleep.VerifSleeperState(sl)
+		return g == sleep.VerifGParked
+	}, s.parked && !s.parkReg)
 }
 
 // ---- observation of the shared memory through the accessors
@@ -504,7 +507,7 @@ func (s *sys) reattach() gate.Event {
 		neu = append(neu, []interface{}{i + 1, id, ok, id2, ok2})
 		probeOld()
 	}
-	s2.Done()
+	// (no s2.Done(): nothing here may block the harness goroutine)
 	return gate.Event{"ev": "reattach", "old": old, "new": neu}
 }
 
